@@ -33,6 +33,14 @@ func verifC12(kind int, maxN int, aspect int) {
 			frac = [...]float64{0.1, 0.25, 0.34, 0.5, 0.75, 1}[verifChoice("evictFraction", 6)]
 		}
 		needMode = verifChoice("evictionNeeded", 2) * 2
+		// a memory soft limit breached in the same cycle (alone, or together with a count breach):
+		// the count target still applies when the count limit is exceeded
+		switch verifChoice("memoryBreach", 3) {
+		case 1:
+			heapLimit, heapRead = 1, 2
+		case 2:
+			sysLimit, sysRead = 1, 2
+		}
 	case 2: // order: all strategies, symbolic metrics
 		strategy = EvictionStrategy(verifChoice("strategy", 3))
 		fracSet, frac = true, [...]float64{0.34, 0.5, 0.75}[verifChoice("evictFraction", 3)]
